@@ -338,6 +338,10 @@ pub struct Freedoms {
     /// specification calls it a hint that "is not necessarily correct"
     #[serde(default)]
     pub stale_count: bool,
+    /// FAT12/16: bytes 20..22 of short entries hold a non-zero value (an extended-attribute handle of OS/2-era
+    /// writers); they are not part of the cluster number there
+    #[serde(default)]
+    pub ea_handle: bool,
 }
 
 impl Freedoms {
@@ -361,10 +365,11 @@ impl Freedoms {
             junk_after_end: false,
             extra_dir_clusters: b(9),
             stale_count: false,
+            ea_handle: b(10),
         }
     }
     pub fn count(&self) -> usize {
-        [self.fragmented, self.backwards, self.eoc_variants, self.bad_clusters, self.deleted_slots, self.orphan_runs, self.short_only, self.nt_case_flags, self.lead_05, self.oem_bytes, self.label_anywhere, self.all_attrs, self.junk_after_end, self.extra_dir_clusters, self.stale_count]
+        [self.fragmented, self.backwards, self.eoc_variants, self.bad_clusters, self.deleted_slots, self.orphan_runs, self.short_only, self.nt_case_flags, self.lead_05, self.oem_bytes, self.label_anywhere, self.all_attrs, self.junk_after_end, self.extra_dir_clusters, self.stale_count, self.ea_handle]
             .iter()
             .filter(|x| **x)
             .count()
@@ -741,6 +746,10 @@ impl<'a> Writer<'a> {
             slots[sidx][26..28].copy_from_slice(&(first as u16).to_le_bytes());
             if self.g.width == 32 {
                 slots[sidx][20..22].copy_from_slice(&((first >> 16) as u16).to_le_bytes());
+            } else if fr.ea_handle && pool.chance(40) {
+                // FAT12/16: the two bytes are not part of the cluster number (OS/2 kept an extended-attribute handle there)
+                let h = 1 + pool.below(0xFFFE) as u16;
+                slots[sidx][20..22].copy_from_slice(&h.to_le_bytes());
             }
             nodes.push(node);
         }
